@@ -38,6 +38,23 @@ DETECTED = {
     'C18_a': ('C18', {'C18': '1/1'}, 'MISSED as built: no small-spread columns; stream small_scale added'),
     'C19_a': ('C19', {'C19': '4/4'}, 'as built'),
     'C20_a': ('C20', {'C20': '3/3'}, 'as built'),
+    # ---- round b (second, different change per property)
+    'C03_b': ('C03', {'C03': '47/49'}, 'as built'),
+    'C06_b': ('C06', {'C06': '2/2'}, 'sparse >2^32-cell case moved from the thorough into the quick tier'),
+    'C07_b': ('C07', {'C07': '6/6', 'C11': '3/3'}, 'as built'),
+    'C08_b': ('C08', {'C08': '41/40', 'C14': '25/22'}, 'as built'),
+    'C09_b': ('C09', {'C09': '1/1'}, 'as built'),
+    'C10_b': ('C10', {'C10': '4/4 (the extracted literal also changes: proof obligations no longer discharge)', 'C15': '10/6'}, 'as built'),
+    'C11_b': ('C11', {'C11': '3/3', 'C07': '6/6'}, 'as built'),
+    'C12_b': ('C12', {'C12': '12/18'}, 'as built'),
+    'C13_b': ('C13', {'C13': '14/15', 'C01': '2/2', 'C06': '24/22'}, 'MISSED as built by C13 and C01 (C06 caught it): no file had more than 8 outcome ids and C13 only used remove_duplicates=None; medium vocabulary + all duplicate policies added'),
+    'C14_b': ('C14', {'C14': '23/22', 'C08': '38/39'}, 'as built (table row orders differ from counting order)'),
+    'C15_b': ('C15', {'C15': '1/1'}, 'as built (corpus with a lone CR); C07/C09 do not see it: each stage still meets its own contract'),
+    'C16_b': ('C16', {'C16': '3/3'}, 'as built (chains that continue dict_ndl from a DataArray)'),
+    'C17_b': ('C17', {'C17': '25/22'}, 'as built (faults after the chunk directory exists)'),
+    'C18_b': ('C18', {'C18': '4/4'}, 'as built (odd number of rows)'),
+    'C19_b': ('C19', {'C19': '7/7'}, 'as built'),
+    'C20_b': ('C20', {'C20': '4/4'}, 'as built (keys beginning with a double quote)'),
 }
 
 
